@@ -41,7 +41,7 @@ fn decode(mut b: &[u8]) -> Result<(Vec<u8>, bool, usize), String> {
     }
 }
 
-fn run(lens: &[usize], ending: &str) -> Option<String> {
+fn run(lens: &[usize], ending: &str, cap: usize) -> Option<String> {
     let mut steps = Vec::new();
     let mut src = Vec::new();
     let mut x = 7u8;
@@ -52,12 +52,13 @@ fn run(lens: &[usize], ending: &str) -> Option<String> {
     }
     steps.push(if ending == "fail" { Step::Fail } else { Step::Eof });
     let mut w = RecWriter::new();
+    w.max_per_call = cap;
     let r = std::panic::catch_unwind(std::panic::AssertUnwindSafe(|| {
         let mut rd = ScriptReader::new(steps);
         let res = block_on(copy_chunked_async(&mut rd, &mut w));
         match res { CopyResult::Ok(n) => format!("Ok({n})"), CopyResult::ReaderErr(_) => "ReaderErr".into(), CopyResult::WriterErr(_) => "WriterErr".into() }
     }));
-    let desc = format!("chunked lens={lens:?} ending={ending}");
+    let desc = format!("chunked lens={lens:?} ending={ending} write_cap={cap}");
     let res = match r { Ok(s) => s, Err(_) => return Some(format!("{desc} expected=no-panic actual=panic")) };
     match decode(&w.out) {
         Err(e) => Some(format!("{desc} expected=valid-chunked-stream actual=invalid({e}) result={res}")),
@@ -84,7 +85,8 @@ fn main() {
         let inside = w.split("lens=[").nth(1).and_then(|s| s.split(']').next()).unwrap_or("");
         let lens: Vec<usize> = inside.split(',').filter_map(|s| s.trim().parse().ok()).collect();
         let ending = if w.contains("ending=fail") { "fail" } else { "eof" };
-        match run(&lens, ending) {
+        let cap: usize = w.split("write_cap=").nth(1).and_then(|s| s.split(' ').next()).and_then(|s| s.parse().ok()).unwrap_or(usize::MAX);
+        match run(&lens, ending, cap) {
             Some(m) => { println!("WITNESS {m}"); std::process::exit(1) }
             None => { println!("OK witness no longer fails"); std::process::exit(0) }
         }
@@ -98,7 +100,7 @@ fn main() {
     for &l in &lens {
         for ending in ["eof", "fail"] {
             n += 1;
-            if let Some(m) = run(&[l], ending) { if found.len() < 5 { found.push(m) } }
+            if let Some(m) = run(&[l], ending, usize::MAX) { if found.len() < 5 { found.push(m) } }
         }
     }
     let mut rng = verif_replay::Rng(0x9E3779B97F4A7C15);
@@ -107,9 +109,14 @@ fn main() {
         let ls: Vec<usize> = (0..k).map(|_| match rng.below(4) { 0 => 1 + rng.below(20) as usize, 1 => 250 + rng.below(12) as usize, 2 => 4090 + rng.below(12) as usize, _ => 1 + rng.below(66000) as usize }).collect();
         for ending in ["eof", "fail"] {
             n += 1;
-            if let Some(m) = run(&ls, ending) { if found.len() < 5 { found.push(m) } }
+            if let Some(m) = run(&ls, ending, usize::MAX) { if found.len() < 5 { found.push(m) } }
         }
     }
+    // short writes: the writer accepts at most `cap` bytes per call
+    for cap in [1usize, 2, 3, 4, 5, 7] { for ls in [vec![], vec![1], vec![11], vec![16, 255], vec![4096]] { for ending in ["eof", "fail"] {
+        n += 1;
+        if let Some(m) = run(&ls, ending, cap) { if found.len() < 5 { found.push(m) } }
+    }}}
     println!("EVALUATED {n}");
     for f in &found { println!("WITNESS {f}"); }
     std::process::exit(if found.is_empty() { 0 } else { 1 });
